@@ -10,8 +10,9 @@ THEOREMS = ["C09_inline", "C09_undefined_macro", "C09_too_few_arguments", "C09_d
             "C09_inline_assembly", "C09_inline_assembly_deferred", "C09_code_argument_assembly",
             "C09_nested_splices_assembly", "C09_mixed_arguments_assembly",
             # the printer / front-end round trip that lifts the AST-level statements to source text
-            "Front_roundtrip", "Front_assemble_printed", "Front_assemble_ast_printed"]
-PROOF_HEADER = "From A816 Require Import Properties.C09 Properties.FrontEnd."
+            "Front_roundtrip", "Front_assemble_printed", "Front_assemble_ast_printed",
+            "TextLift_macro_inline"]
+PROOF_HEADER = "From A816 Require Import Properties.C09 Properties.FrontEnd Properties.TextLift."
 RULE = ("generated macro definitions (0-3 parameters, all statement kinds in bodies, local labels, nested calls, code-block "
         "parameters) x argument expressions (literals, constants, backward/forward labels, names equal to parameter names) "
         "x 1-4 applications; each program is compared with the model and with its mechanically inlined twin "
@@ -81,6 +82,27 @@ def cases(ctx):
     out.append({"kind": "code-arg", "rom": "low", "spec": {"t": "twin", "labels": False},
                 "src": f"*={org:#08x}\n.macro w(v, body) {{\n.db v\n{{{{body}}}}\n.db v\n{{{{body}}}}\n}}\nw(7, {{\nnop\nlda.w #0x1234\n}})\n",
                 "twin_src": f"*={org:#08x}\n.db 7\nnop\nlda.w #0x1234\n.db 7\nnop\nlda.w #0x1234\n"})
+    # the FIRST macro definitions of a program inside a nested construct (a taken .if / else branch, a block, a named scope,
+    # an included file): the definition is known to everything that follows the construct
+    for wname, w in (("if", ".if 1 {\n%s}\n"), ("else", ".if 0 {\nnop\n} else {\n%s}\n"), ("block", "{\n%s}\n"),
+                     ("scope", ".scope zz_lib {\n%s}\n"), ("nested", "{\n.if 1 {\n{\n%s}\n}\n}\n")):
+        out.append({"kind": f"defined-in:{wname}", "rom": "low", "spec": {"t": "twin", "labels": False},
+                    "src": f"*={org:#08x}\n" + (w % ".macro zz_dm(a) {\n.db a, a + 1\n}\n") + "zz_dm(5)\n{\nzz_dm(7)\n}\n",
+                    "twin_src": f"*={org:#08x}\n.db 5, 6, 7, 8\n"})
+    out.append({"kind": "defined-in:include", "rom": "low", "spec": {"t": "twin", "labels": False},
+                "files": {"zz_lib.s": ".macro zz_dm(a) {\n.db a, a + 1\n}\n"},
+                "src": f"*={org:#08x}\n.include 'zz_lib.s'\nzz_dm(5)\n", "twin_src": f"*={org:#08x}\n.db 5, 6\n"})
+    # applications that expand to nothing (a helper compiled out, the last step of a recursion) still have their own scope:
+    # what follows - scopes with equal label names, applications at another nesting level - is unaffected
+    for pre in (".macro zz_tr(v) {\n.if DEBUG {\n.db v\n}\n}\nDEBUG := 0\nzz_tr(1)\n",
+                ".macro zz_tr(v) {\n.if DEBUG {\n.db v\n}\n}\nDEBUG := 0\n{\nzz_tr(1)\n}\n",
+                ".macro zz_tr(v) {\n.if v {\n.db v\nzz_tr(v - 1)\n}\n}\nzz_tr(2)\n",
+                ".macro zz_tr(v) {\n}\n.scope zz_o {\nzz_tr(1)\nzz_tr(2)\n}\n"):
+        rest = (".scope menu {\nstart:\nnop\nzz_x = 0x12\n}\n.scope game {\nnop\nstart:\nrts\nzz_x = 0x42\n.db zz_x\n}\n"
+                ".macro zz_v(q) {\n.db q\n}\nzz_x = 0x77\nzz_v(zz_x)\n.dl menu.start, game.start\n.db menu.zz_x, game.zz_x\n")
+        twin_pre = pre.replace("zz_tr(1)\n", "{\n}\n").replace("zz_tr(2)\n", "{\n.db 2\n{\n.db 1\n{\n}\n}\n}\n" if "v - 1" in pre else "{\n}\n")
+        out.append({"kind": "empty-expansion", "rom": "low", "spec": {"t": "twin", "labels": True},
+                    "src": f"*={org:#08x}\n{pre}{rest}", "twin_src": f"*={org:#08x}\n{twin_pre}{rest}"})
     # failures
     for src in (f"*={org:#08x}\nnope(1)\n", f"*={org:#08x}\n.macro m(a, b) {{\n.db a\n}}\nm(1)\n",
                 f"*={org:#08x}\nm(1)\n.macro m(a) {{\n.db a\n}}\n", f"*={org:#08x}\n.macro m(a, b, c) {{\nnop\n}}\nm()\n",
@@ -95,7 +117,7 @@ def cases(ctx):
     out.append({"kind": "own-definition:after-other-program", "rom": "low", "earlier_src": earlier,
                 "src": f"*={org:#08x}\n.macro r(n) {{\n.db n\n}}\nr(7)\n", "twin_src": f"*={org:#08x}\n.db 7\n",
                 "spec": {"t": "twin", "labels": False}})
-    return out
+    return core.mark_must_assemble(out, {'recursive', 'capture', 'code-arg', 'empty-expansion', 'defined-in', 'own-definition', 'local-labels'})
 
 
 def instantiate(gen_q):
